@@ -89,7 +89,10 @@ BuildMap(st, kvs, ln) ==
                     ELSE [s |-> "ok", ps |-> AssocPut(st.heap, acc.ps, kv[1], kv[2])]
   IN FoldLeft(f, [s |-> "ok", ps |-> <<>>], kvs)
 
-Ev(e, env, st, ln, d) ==
+\* ln0: the line of the enclosing statement; an expression written over several lines carries, per node, the line of
+\* the token the failing operation belongs to (the operator, the '(' of a call, the '[' of an index)
+Ev(e, env, st, ln0, d) ==
+  LET ln == IF "ln" \in DOMAIN e THEN e.ln ELSE ln0 IN
   CASE e.t = "lit" -> OkR(e.v, st)
     [] e.t = "id" ->
          LET i == LookupB(env, e.n)
@@ -129,10 +132,11 @@ Ev(e, env, st, ln, d) ==
             ELSE IF e.tg.t = "id"
                  THEN LET i == LookupB(env, e.tg.n) IN OkR(r.v, SetCell(r.st, env[i].c, r.v))
                  ELSE IF e.tg.t # "idx" THEN UnspecR(r.st)      \* a packet property: Packet.tla's business
-                 ELSE LET ra == Ev(e.tg.a, env, r.st, ln, d)
+                 ELSE LET tl == IF "ln" \in DOMAIN e.tg THEN e.tg.ln ELSE ln
+                          ra == Ev(e.tg.a, env, r.st, tl, d)
                       IN IF ra.s # "ok" THEN ra ELSE
-                         LET ri == Ev(e.tg.i, env, ra.st, ln, d)
-                         IN IF ri.s # "ok" THEN ri ELSE IndexSet(ri.st, ra.v, ri.v, r.v, ln)
+                         LET ri == Ev(e.tg.i, env, ra.st, tl, d)
+                         IN IF ri.s # "ok" THEN ri ELSE IndexSet(ri.st, ra.v, ri.v, r.v, tl)
     [] e.t = "idx" ->
          LET ra == Ev(e.a, env, st, ln, d)
          IN IF ra.s # "ok" THEN ra ELSE
@@ -186,19 +190,28 @@ PatHolds(h, p, v) ==
          \* the reverse) whose number lies outside the bounds is contained under no reading of the documentation.
          LET lo == BinOp(">=", v, p.lo)
              hi == BinOp(IF p.incl THEN "<=" ELSE "<", v, p.hi)
-         IN IF IsVal(lo) /\ IsVal(hi) THEN T3(lo.v /\ hi.v)
+         IN IF IsErr(lo) THEN "e"                        \* the bounds cannot be compared with the scrutinee: a runtime error
+            ELSE IF IsVal(lo) /\ ~lo.v THEN "f"          \* below the range: the upper bound is not looked at
+            ELSE IF IsVal(lo) /\ IsErr(hi) THEN "e"
+            ELSE IF IsVal(lo) /\ IsVal(hi) THEN T3(lo.v /\ hi.v)
             ELSE IF {v.k, p.lo.k} = {"int", "byte"}
                     /\ (SCmp(ToW(v), ToW(p.lo)) < 0 \/ SCmp(ToW(v), ToW(p.hi)) > 0) THEN "f"
             ELSE "u"
-AnyPat(h, ps, v) ==
-  LET f(acc, p) == IF acc = "t" THEN "t"
-                   ELSE LET q == PatHolds(h, p, v) IN IF q = "t" THEN "t" ELSE IF q = "u" \/ acc = "u" THEN "u" ELSE "f"
-  IN FoldLeft(f, "f", ps)
+\* the patterns of one arm in order: [q: "t" | "f" | "u" | "e", ln: line of the failing pattern]
+AnyPat(h, ps, v, ln) ==
+  LET f(acc, p) == IF acc.q \in {"t", "e"} THEN acc
+                   ELSE LET q == PatHolds(h, p, v)
+                        IN IF q = "t" THEN [q |-> "t", ln |-> 0]
+                           ELSE IF q = "e" THEN (IF acc.q = "u" THEN acc
+                                                 ELSE [q |-> "e", ln |-> IF "ln" \in DOMAIN p THEN p.ln ELSE ln])
+                           ELSE IF q = "u" \/ acc.q = "u" THEN [q |-> "u", ln |-> 0] ELSE acc
+  IN FoldLeft(f, [q |-> "f", ln |-> 0], ps)
 EvMatchArms(arms, i, v, env, st, ln, d) ==
   IF i > Len(arms) THEN OkR(Null, st)
-  ELSE LET q == AnyPat(st.heap, arms[i].pats, v)
-       IN IF q = "u" THEN UnspecR(st)
-          ELSE IF q = "t" THEN ExBlock(arms[i].body, env, st, ln, d)
+  ELSE LET a == AnyPat(st.heap, arms[i].pats, v, ln)
+       IN IF a.q = "u" THEN UnspecR(st)
+          ELSE IF a.q = "e" THEN ErrR("kinds", a.ln, st)
+          ELSE IF a.q = "t" THEN ExBlock(arms[i].body, env, st, ln, d)
           ELSE EvMatchArms(arms, i + 1, v, env, st, ln, d)
 
 CallVal(f, args, st, ln, d) ==
